@@ -69,6 +69,7 @@ type retRec struct {
 type Exec struct {
 	E         *Env
 	epochMerge map[int]*epochMergeRec
+	curIns     ssa.Instruction
 	usableLS       map[string]*LoopSpec
 	loopProbeState *State
 	ghostGoTypes map[string]types.Type
